@@ -70,11 +70,20 @@ def cppcheck(sc, files, opts=(), builddir=True, jobs=1, env=None, debug=False, t
     e = dict(os.environ)
     if env:
         e.update(env)
-    try:
-        p = subprocess.run(cmd, cwd=sc.p, stdout=subprocess.PIPE, stderr=subprocess.PIPE, env=e, timeout=timeout,
-                           start_new_session=True)
-    except subprocess.TimeoutExpired:
-        return ["!timeout"], [], 124
+    p = None
+    for attempt in range(60):
+        try:
+            p = subprocess.run(cmd, cwd=sc.p, stdout=subprocess.PIPE, stderr=subprocess.PIPE, env=e, timeout=timeout,
+                               start_new_session=True)
+            break
+        except subprocess.TimeoutExpired:
+            return ["!timeout"], [], 124
+        except OSError:
+            # the shared binary is being relinked by a concurrent build of /repo: wait for it
+            import time
+            time.sleep(2)
+    if p is None:
+        raise vlib.BuildError("cannot execute " + vlib.CPPCHECK)
     err = p.stderr.decode("utf-8", "replace").splitlines()
     out = p.stdout.decode("utf-8", "replace").splitlines()
     findings = sorted(set(l for l in err if l.strip()))
